@@ -129,6 +129,25 @@ def build_specs(ctx, d):
         g.append(spec("clustered-assign-loss", "hashseed=1", big, 2, a, hashseed="1"))
         g.append(spec("clustered-assign-loss", "affinity=1-core", big, 2, a, taskset=0))
     groups.append(("clustered-assign-loss", g))
+    # --- --assign-loss-prob when the cluster file has no chromosome column: the positions are merged in from the DATA file
+    # (and, when neither file has them, the loader falls back to the low loss prior without drawing from the generator)
+    rows3 = runs.make_rows(ctx.rng, 10, 2, depth=(20, 40))
+    for r in rows3:
+        m = int(r["mutation_id"][1:])
+        r["chrom"] = "chr%d" % (m + 1) if m < 5 else "chr7"
+    big3 = runs.write_input(os.path.join(d, "clustered_chrom_in_data.tsv"), rows3)
+    cl3 = os.path.join(d, "clusters_no_chrom.tsv")
+    with open(cl3, "w") as fh:
+        fh.write("mutation_id\tsample_id\tcluster_id\tcellular_prevalence\n")
+        for m in range(10):
+            for smp in range(2):
+                cid = 0 if m < 5 else 1
+                fh.write("m%d\tS%d\t%d\t%s\n" % (m, smp, cid, "0.9" if cid == 0 else "0.3"))
+    a = ["--proposal", "semi-adapted", "-c", cl3, "--assign-loss-prob", "--grid-size", 41]
+    groups.append(("assign-loss-chrom-from-data", [spec("assign-loss-chrom-from-data", "reference", big3, 1, a), spec("assign-loss-chrom-from-data", "hashseed=random", big3, 1, a, hashseed=None)]))
+    rows4 = [{k: v for k, v in r.items() if k != "chrom"} for r in rows3]
+    big4 = runs.write_input(os.path.join(d, "clustered_no_chrom_anywhere.tsv"), rows4)
+    groups.append(("assign-loss-no-positions", [spec("assign-loss-no-positions", "reference", big4, 1, a), spec("assign-loss-no-positions", "hashseed=random", big4, 1, a, hashseed=None)]))
     # --- the same with STRING cluster ids and an exact tie for the truncal cluster (two clusters at cellular prevalence 1.0 in
     # every sample): any choice made by iterating over a set / dict of cluster ids then depends on the hash seed, changes which
     # clusters are flagged as lost and how many values the loader draws from the seeded generator
